@@ -42,6 +42,11 @@ pub fn debug_status(source: &str, bytes: &[u8]) -> (bool, bool) {
 
 /// With probability num/den attach synthesised well-formed DWARF to a valid, DWARF-free module.
 pub fn maybe_attach_dwarf(p: Picked, rng: &mut Rng, num: u64, den: u64) -> Picked {
+    maybe_attach_dwarf_ex(p, rng, num, den, false)
+}
+
+/// `allow_empty`: modules without a local function get DWARF too (a unit without subprograms).
+pub fn maybe_attach_dwarf_ex(p: Picked, rng: &mut Rng, num: u64, den: u64, allow_empty: bool) -> Picked {
     if !rng.chance(num, den) {
         return p;
     }
@@ -49,7 +54,7 @@ pub fn maybe_attach_dwarf(p: Picked, rng: &mut Rng, num: u64, den: u64) -> Picke
     if has || crate::validator::validate(&p.bytes, false).is_err() {
         return p;
     }
-    match crate::dwarfgen::attach(&p.bytes) {
+    match crate::dwarfgen::attach_ex(&p.bytes, allow_empty) {
         Some(b) => {
             let src = format!("{}{}", p.iref.source.chars().take(400).collect::<String>(), DWARF_TAG);
             Picked { iref: input_ref(&src, &b), bytes: b, recipe: p.recipe }
@@ -103,7 +108,14 @@ pub fn splice_customs(bytes: &[u8], rng: &mut Rng, n: u32) -> Vec<u8> {
         };
         let len = gen::boundary_len(rng);
         let data = rng.bytes(len);
-        let sec = wasmsplit::custom_section_bytes(name.as_bytes(), &data);
+        // one section in eight has non-canonical (padded) length fields: legal on input, canonical on output,
+        // name and payload bytes unchanged
+        let sec = if rng.below(8) == 0 {
+            let (sp, np) = *rng.pick(&[(0usize, 1usize), (1, 0), (2, 3), (4, 4)]);
+            wasmsplit::custom_section_bytes_padded(name.as_bytes(), &data, sp, np)
+        } else {
+            wasmsplit::custom_section_bytes(name.as_bytes(), &data)
+        };
         let nsec = wasmsplit::split(&out).map(|s| s.len()).unwrap_or(0);
         let at = match rng.below(4) {
             0 => 0,
